@@ -19,7 +19,8 @@ def check(run):
     quick = run.tier == "quick"
     exe = vlib.build_harness(run)
     U = vlib.universe(run, ECOS)
-    acc = vlib.accepted(run, exe, U)
+    rnd = random.Random(run.seed)
+    acc = vlib.accepted(run, exe, U, regex_extra=200 if quick else 1500, rnd=rnd)
     rnd = random.Random(run.seed)
     allpads = paddings(run)                # 441 pairs
     nonempty = [p for p in allpads if p["l"] or p["r"]]
